@@ -110,7 +110,8 @@ class Tracer:
             ev = self.io_pending.pop(e['hid'], None)
             if ev is not None: ev['tev'] = ('io', ev['tev'][1], full)
             if io[0] == 'data':
-                self.recvs.append(dict(t=self.now(), tid=e['tev'][1][1], len=io[1], verdict=io[2], chunk=cid, data=data))
+                self.seq = getattr(self, 'seq', 0) + 1
+                self.recvs.append(dict(t=self.now(), tid=e['tev'][1][1], len=io[1], verdict=io[2], chunk=cid, data=data, seq=self.seq))
 
     def now(self):
         return round(self.loop.time() * 1000) if self.loop else 0
@@ -149,7 +150,8 @@ class Tracer:
                 return orig(data, *a)
             finally:
                 t.cons_sends.append(not t.sync_err and getattr(tr, '_conn_lost', 0) == was)
-                t.act([3, tid, k]); t.sends.append(dict(t=t.now(), tid=tid, k=k, data=bytes(data)))
+                t.seq = getattr(t, 'seq', 0) + 1
+                t.act([3, tid, k]); t.sends.append(dict(t=t.now(), tid=tid, k=k, data=bytes(data), seq=t.seq))
         setattr(tr, name, send)
 
     def act(self, a):
@@ -293,6 +295,8 @@ class TLoop(V.VLoop):
 
     def _run_once(self):
         self._iter_no += 1
+        if self._iter_no > 30000:
+            raise V.Hang('runaway: more than 30000 event-loop iterations without completing (endless retransmission?)')
         super()._run_once()
 
     def call_at(self, when, callback, *args, context=None):
